@@ -296,7 +296,9 @@ func (s *ResettableKeystore) worker() {
 				newKeys, err := s.put(op.ctx, op.keys)
 				op.response <- operationResponse{multihashes: newKeys, err: err}
 				if err != nil {
-					if size, refreshErr := refreshSize(op.ctx, s.ds); refreshErr == nil {
+					// Recount even if the caller has given up: its context is the usual
+					// reason the operation failed, and the counter must not stay stale.
+					if size, refreshErr := refreshSize(context.WithoutCancel(op.ctx), s.ds); refreshErr == nil {
 						s.size = size
 					} else {
 						s.logger.Error("keystore: failed to refresh size after put: ", refreshErr)
@@ -315,7 +317,7 @@ func (s *ResettableKeystore) worker() {
 				err := s.delete(op.ctx, op.keys)
 				op.response <- operationResponse{err: err}
 				if err != nil {
-					if size, refreshErr := refreshSize(op.ctx, s.ds); refreshErr == nil {
+					if size, refreshErr := refreshSize(context.WithoutCancel(op.ctx), s.ds); refreshErr == nil {
 						s.size = size
 					} else {
 						s.logger.Error("keystore: failed to refresh size after delete: ", refreshErr)
@@ -328,7 +330,7 @@ func (s *ResettableKeystore) worker() {
 				if err == nil {
 					s.size = 0
 				} else {
-					if size, refreshErr := refreshSize(op.ctx, s.ds); refreshErr == nil {
+					if size, refreshErr := refreshSize(context.WithoutCancel(op.ctx), s.ds); refreshErr == nil {
 						s.size = size
 					} else {
 						s.logger.Error("keystore: failed to refresh size after empty: ", refreshErr)
